@@ -7,6 +7,8 @@ use crate::kit::generate::{ProgOpts, default_pool, gen_ht, gen_program, small_po
 use crate::kit::json::J;
 use crate::kit::rng::Rng;
 use crate::kit::value::{Interp, Value};
+#[allow(unused_imports)]
+use crate::kit::value::Ext;
 use crate::monitors::common::*;
 use crate::run::{Config, Outcome, Stats, finish, guarded, parallel, scratch_dir};
 use anthem::syntax_tree::asp::mini_gringo as asp;
@@ -263,6 +265,91 @@ fn case(cfg: &Config, tmp: &std::path::Path, idx: u64, r: &mut Rng, st: &mut Sta
     }
 }
 
+/// text-level check: the values of a ground term as written (independent tokenizer and
+/// precedence-climbing evaluator, kit::textref) against the tau* theory of the fact `p(TERM).`
+fn text_case(_cfg: &Config, idx: u64, r: &mut Rng, st: &mut Stats) {
+    fn flat(r: &mut Rng, n: usize) -> String {
+        let mut s = String::new();
+        let operand = |r: &mut Rng, depth: usize| -> String {
+            match r.below(8) {
+                0 if depth < 2 => { let k = 1 + r.upto(3); format!("({})", flat(r, k)) }
+                1 => format!("-{}", r.range(0, 6)),
+                2 => format!("- {}", r.range(1, 6)),
+                3 => format!("--{}", r.range(1, 4)),
+                _ => format!("{}", r.range(0, 7)),
+            }
+        };
+        s.push_str(&operand(r, n));
+        for _ in 0..n {
+            let op = ["+", "-", "*", "/", "\\", "..", "-", "*"][r.upto(8)];
+            let sp = ["", " "][r.upto(2)];
+            s.push_str(&format!("{sp}{op}{sp}{}", operand(r, n)));
+        }
+        s
+    }
+    let n_ops = 1 + r.upto(4);
+    let text = flat(r, n_ops);
+    let Some(expect) = crate::kit::textref::values_of_text(&text, div_conv()) else {
+        st.inc("text_terms_outside_fragment");
+        return;
+    };
+    let prog_text = format!("p({text}).");
+    let prog = match parse_program(&prog_text) {
+        Ok(p) => p,
+        Err(_) => {
+            st.inc("text_terms_rejected_by_anthem");
+            return;
+        }
+    };
+    let Ok(theory) = guarded(|| prog.clone().tau_star()) else {
+        st.inc("lost_to_panic");
+        return;
+    };
+    st.inc("text_terms");
+    if idx < 2 {
+        st.sample(J::obj().set("term_text", J::s(&text)).set("values_by_the_language_definition", J::s(format!("{expect:?}"))).set("tau_star", J::s(theory.to_string())));
+    }
+    let mk = |vals: &std::collections::BTreeSet<i128>| -> Interp {
+        let mut i = Interp::default();
+        let mut e = crate::kit::value::Ext::default();
+        for v in vals {
+            e.exc.insert(vec![Value::Int(*v)]);
+        }
+        i.preds.insert(("p".into(), 1), e);
+        i
+    };
+    let consts = Consts::new();
+    let assign = Assign::new();
+    let mut verdicts: Vec<(String, Tv, Tv)> = Vec::new();
+    let full = mk(&expect);
+    verdicts.push(("exactly the values".into(), eval_fol(&theory.formulas[0], &full, &full, &consts, &assign, World::H).0, Tv::T));
+    for drop in expect.iter().take(3) {
+        let mut less = expect.clone();
+        less.remove(drop);
+        let i = mk(&less);
+        verdicts.push((format!("without {drop}"), eval_fol(&theory.formulas[0], &i, &i, &consts, &assign, World::H).0, Tv::F));
+    }
+    for (what, got, want) in verdicts {
+        match got {
+            Tv::U => st.inc("text_unknown"),
+            g if g == want => {
+                st.inc("definite_text_comparisons");
+                st.eval(Some(&format!("T|{text}|{what}")));
+            }
+            g => {
+                st.inc("definite_text_comparisons");
+                st.eval(None);
+                st.violation(
+                    "text-level-term-value",
+                    format!("p({text}). : by the language definition the term has the values {expect:?}; the tau* theory evaluates to {g:?} on the interpretation `{what}`, expected {want:?}"),
+                    J::obj().set("program", J::s(&prog_text)).set("parsed_and_printed", J::s(prog.to_string())).set("tau_star", J::s(theory.to_string())),
+                );
+                return;
+            }
+        }
+    }
+}
+
 pub fn run(cfg: &Config) -> i32 {
     let started = Instant::now();
     require_binaries(cfg);
@@ -270,6 +357,9 @@ pub fn run(cfg: &Config) -> i32 {
     let cases = cfg.scaled(cfg.pick(10_000, 1_000_000));
     let budget = Duration::from_secs_f64(cfg.pick(50.0, 540.0) * cfg.scale);
     let stats = parallel(cfg, "main", cases, budget, |idx, r, st| case(cfg, &tmp, idx, r, st));
+    let mut stats = stats;
+    let s2 = parallel(cfg, "text", cfg.scaled(cfg.pick(20_000, 2_000_000)), budget / 3, |idx, r, st| text_case(cfg, idx, r, st));
+    stats.merge(s2);
     let _ = std::fs::remove_dir_all(&tmp);
     finish(
         cfg,
